@@ -225,6 +225,67 @@ def func_sigs(text):
     return out
 
 
+def judge_doc(ctx, srv, f, g, text, conf, opened):
+    before = srv.seq
+    (srv.did_change if opened else srv.did_open)(f, text)
+    diags = srv.wait_diagnostics(f, before, timeout=30)
+    if diags is None:
+        raise Inconclusive("no diagnostics published")
+    und = [d for d in diags if d.get("code") == "undeclared-fixture"]
+    got = {(d["range"]["start"]["line"], d["range"]["start"]["character"], d["range"]["end"]["character"]): d for d in und}
+    sites = {(s["line0"], s["col_b"], s["col_b"] + len(s["name"])): s for s in g.sites}
+    shapes = {fn["name"]: fn for fn in g.funcs}
+    for key, s in sites.items():
+        ctx.judged()
+        flagged = key in got
+        if s["label"] == "must" and not flagged:
+            ctx.violation({"kind": "visible-undeclared-fixture-not-flagged", "name": s["name"], "stmt": g.lines[s["line0"]].strip()[:60]},
+                          {"site": s, "flagged": sorted(got)[:10]}, files={"test_doc.py": text, "conftest.py": conf})
+        elif s["label"] == "never" and flagged:
+            ctx.violation({"kind": "warning-on-name-that-must-not-be-flagged", "name": s["name"], "stmt": g.lines[s["line0"]].strip()[:60]},
+                          {"site": s, "message": got[key]["message"]}, files={"test_doc.py": text, "conftest.py": conf})
+        ctx.nontrivial((s["label"], g.lines[s["line0"]].strip().split(s["name"])[0][-6:], shapes[s["func"]]["shape"]))
+    for key, d in got.items():
+        if key not in sites:
+            # a warning somewhere we did not place a use: must at least be a token of a visible fixture name
+            line = g.lines[key[0]] if key[0] < len(g.lines) else ""
+            tok = line.encode()[key[1]:key[2]].decode("utf-8", "replace")
+            ctx.judged()
+            if tok not in VISIBLE:
+                ctx.violation({"kind": "warning-range-is-not-a-fixture-name", "token": tok}, {"diag": d, "line": line},
+                              files={"test_doc.py": text})
+    # ---- quick fixes ------------------------------------------------------------------------------------
+    base_sigs = func_sigs(text)
+    done_funcs = set()
+    for key, d in list(got.items())[:6]:
+        s = sites.get(key)
+        if s is None or (s["func"], s["name"]) in done_funcs:
+            continue
+        done_funcs.add((s["func"], s["name"]))
+        r = srv.code_action(f, d["range"], [d])
+        if not r["answered"]:
+            raise Inconclusive("codeAction unanswered")
+        acts = r.get("result") or []
+        fn = shapes[s["func"]]
+        for a in acts:
+            edits = []
+            for uri, es in (a.get("edit", {}).get("changes") or {}).items():
+                edits += es
+            verdict = judge_edit(ctx, srv, f, text, edits, s, fn, base_sigs, "quick_fix")
+            ctx.nontrivial(("quick_fix", fn["shape"], verdict))
+        if not acts:
+            ctx.count("no_quick_fix_offered:" + fn["shape"])
+        # ---- completion in the body: parameter edit attached to the item ---------------------------------
+        r = srv.completion(f, s["line0"], 0)
+        items = r.get("result") or []
+        if isinstance(items, dict):
+            items = items.get("items", [])
+        it = next((x for x in items if x["label"] == s["name"] and x.get("additionalTextEdits")), None)
+        if it is not None:
+            verdict = judge_edit(ctx, srv, f, text, it["additionalTextEdits"], s, fn, base_sigs, "completion_edit")
+            ctx.nontrivial(("completion_edit", fn["shape"], verdict))
+
+
 def run(ctx):
     quick = ctx.tier == "quick"
     n = 40 if quick else 2500
@@ -241,6 +302,10 @@ def run(ctx):
     try:
         srv.initialize()
         opened = False
+        pinned(ctx, srv, f, conf)
+        opened = True
+        if os.environ.get("VERIF_ONLY_PINNED"):
+            return
         for i in range(n):
             g = gen_doc(ctx.rng)
             text = "\n".join(g.lines) + "\n"
@@ -249,65 +314,8 @@ def run(ctx):
             except Exception:
                 ctx.count("skipped_invalid_generated_doc")
                 continue
-            before = srv.seq
-            (srv.did_change if opened else srv.did_open)(f, text)
+            judge_doc(ctx, srv, f, g, text, conf, opened)
             opened = True
-            diags = srv.wait_diagnostics(f, before, timeout=30)
-            if diags is None:
-                raise Inconclusive("no diagnostics published")
-            und = [d for d in diags if d.get("code") == "undeclared-fixture"]
-            got = {(d["range"]["start"]["line"], d["range"]["start"]["character"], d["range"]["end"]["character"]): d for d in und}
-            sites = {(s["line0"], s["col_b"], s["col_b"] + len(s["name"])): s for s in g.sites}
-            shapes = {fn["name"]: fn for fn in g.funcs}
-            for key, s in sites.items():
-                ctx.judged()
-                flagged = key in got
-                if s["label"] == "must" and not flagged:
-                    ctx.violation({"kind": "visible-undeclared-fixture-not-flagged", "name": s["name"], "stmt": g.lines[s["line0"]].strip()[:60]},
-                                  {"site": s, "flagged": sorted(got)[:10]}, files={"test_doc.py": text, "conftest.py": conf})
-                elif s["label"] == "never" and flagged:
-                    ctx.violation({"kind": "warning-on-name-that-must-not-be-flagged", "name": s["name"], "stmt": g.lines[s["line0"]].strip()[:60]},
-                                  {"site": s, "message": got[key]["message"]}, files={"test_doc.py": text, "conftest.py": conf})
-                ctx.nontrivial((s["label"], g.lines[s["line0"]].strip().split(s["name"])[0][-6:], shapes[s["func"]]["shape"]))
-            for key, d in got.items():
-                if key not in sites:
-                    # a warning somewhere we did not place a use: must at least be a token of a visible fixture name
-                    line = g.lines[key[0]] if key[0] < len(g.lines) else ""
-                    tok = line.encode()[key[1]:key[2]].decode("utf-8", "replace")
-                    ctx.judged()
-                    if tok not in VISIBLE:
-                        ctx.violation({"kind": "warning-range-is-not-a-fixture-name", "token": tok}, {"diag": d, "line": line},
-                                      files={"test_doc.py": text})
-            # ---- quick fixes ------------------------------------------------------------------------------------
-            base_sigs = func_sigs(text)
-            done_funcs = set()
-            for key, d in list(got.items())[:6]:
-                s = sites.get(key)
-                if s is None or (s["func"], s["name"]) in done_funcs:
-                    continue
-                done_funcs.add((s["func"], s["name"]))
-                r = srv.code_action(f, d["range"], [d])
-                if not r["answered"]:
-                    raise Inconclusive("codeAction unanswered")
-                acts = r.get("result") or []
-                fn = shapes[s["func"]]
-                for a in acts:
-                    edits = []
-                    for uri, es in (a.get("edit", {}).get("changes") or {}).items():
-                        edits += es
-                    verdict = judge_edit(ctx, srv, f, text, edits, s, fn, base_sigs, "quick_fix")
-                    ctx.nontrivial(("quick_fix", fn["shape"], verdict))
-                if not acts:
-                    ctx.count("no_quick_fix_offered:" + fn["shape"])
-                # ---- completion in the body: parameter edit attached to the item ---------------------------------
-                r = srv.completion(f, s["line0"], 0)
-                items = r.get("result") or []
-                if isinstance(items, dict):
-                    items = items.get("items", [])
-                it = next((x for x in items if x["label"] == s["name"] and x.get("additionalTextEdits")), None)
-                if it is not None:
-                    verdict = judge_edit(ctx, srv, f, text, it["additionalTextEdits"], s, fn, base_sigs, "completion_edit")
-                    ctx.nontrivial(("completion_edit", fn["shape"], verdict))
             if i < 2:
                 ctx.sample({"doc": text[:1200], "sites": g.sites[:8]})
             ctx.count("documents")
@@ -370,3 +378,16 @@ def enclosing(text, line0):
             if best is None or n.lineno > best.lineno:
                 best = n
     return best.name if best else None
+
+
+def pinned(ctx, srv, f, conf):
+    from ..witness import WITNESS
+    text = WITNESS[KF_INSERT]["doc"]
+    g = Gen(ctx.rng)
+    g.lines = text.split("\n")
+    g.sites = [{"line0": 3, "col_b": 8, "name": "fa", "label": "must", "func": "test_first"},
+               {"line0": 12, "col_b": 8, "name": "fa", "label": "must", "func": "test_third"}]
+    g.funcs = [{"name": "test_first", "line0": 2, "shape": "single_ret", "kind": "test", "declared": [], "simple": False},
+               {"name": "test_second", "line0": 6, "shape": "single", "kind": "test", "declared": ["fb"], "simple": True},
+               {"name": "test_third", "line0": 9, "shape": "multi_trailing", "kind": "test", "declared": ["fb"], "simple": False}]
+    judge_doc(ctx, srv, f, g, text, conf, False)
